@@ -996,10 +996,10 @@ def _rename_in(node: ast.AST, mapping: Dict[str, str]) -> None:
             n.arg = mapping[n.arg]
 
 
-def _scope_binders(fn) -> None:
+def _scope_binders(fn, counter=None) -> None:
     """Comprehension variables and lambda parameters live in their own scope: give every binder its own name so that the reuse
     of one name by two comprehensions (or the shadowing of a local) does not tie them together."""
-    counter = [0]
+    counter = counter if counter is not None else [0]
 
     def rec(n):
         for ch in ast.iter_child_nodes(n):
@@ -1012,6 +1012,8 @@ def _scope_binders(fn) -> None:
                         names.append(t.id)
             mapping = {}
             for nm in names:
+                if nm.startswith("_c") and nm[2:].isdigit():
+                    continue
                 mapping[nm] = f"_c{counter[0]}"
                 counter[0] += 1
             parts = [getattr(n, f) for f in ("elt", "key", "value") if hasattr(n, f)]
@@ -1025,6 +1027,8 @@ def _scope_binders(fn) -> None:
         elif isinstance(n, ast.Lambda):
             mapping = {}
             for a in n.args.args:
+                if a.arg.startswith("_c") and a.arg[2:].isdigit():
+                    continue
                 mapping[a.arg] = f"_c{counter[0]}"
                 counter[0] += 1
             _rename_in(n.args, mapping)
@@ -1087,7 +1091,8 @@ def nf_text(fn: ast.AST, sigs: Optional[Dict[str, List[str]]] = None, inline: bo
     ast.fix_missing_locations(f)
     if sigs:
         f = _Kw(sigs).visit(f)
-    _scope_binders(f)
+    binder_counter = [0]
+    _scope_binders(f, binder_counter)
     _BIND.clear()
     for a in f.args.posonlyargs + f.args.args + f.args.kwonlyargs:
         _BIND.setdefault(a.arg, len(_BIND))
@@ -1107,6 +1112,7 @@ def nf_text(fn: ast.AST, sigs: Optional[Dict[str, List[str]]] = None, inline: bo
         _fix_empty(f)
         changed |= _ifs(f)
         changed |= _loops(f)
+        _scope_binders(f, binder_counter)  # comprehensions made from loops get their own binders too
         changed |= _inline_before_return(f)
         changed |= _conditional_overwrite(f)
         ast.fix_missing_locations(f)
